@@ -240,7 +240,7 @@ func runC18(c *Ctx) {
 	for i := 0; i < n; i++ {
 		r := rng.Fork()
 		cid := fmt.Sprintf("c18-%d", i)
-		o := ATGenOpts{AllowFindings: r.Chance(20), NullableVals: r.Chance(50), StrPK: r.Chance(30), PKUpdates: r.Chance(50), BigInts: r.Chance(10), ContinueOnError: r.Chance(40), Upserts: r.Chance(30), OrderLimit: r.Chance(40)}
+		o := ATGenOpts{AllowFindings: r.Chance(20), NullableVals: r.Chance(50), StrPK: r.Chance(30), PKUpdates: r.Chance(50), BigInts: r.Chance(10), ContinueOnError: r.Chance(40), Upserts: r.Chance(30), OrderLimit: r.Chance(40), AutoInc: r.Chance(20)}
 		cs := genATCase(r, w, cid, o)
 		cs.Locals = cs.Locals[:1]
 		cs.OnlyCare = r.Bool()
